@@ -290,9 +290,16 @@ def run(ctx):
     accessor(ctx, letters)
     long_family(ctx)
     slow_family(ctx)
+    from . import spell_common
+    spell_common.run(ctx, "C03")
+
 
 
 def replay(sub, case, p):
+    if case.get("kind") == "spelling":
+        from . import spell_common
+        spell_common.run(p, "C03")
+        return
     k = case["kind"]
     if k == "fixed":
         y = np.asarray([case["y"]], dtype=np.float64)
